@@ -12,6 +12,7 @@ import (
 	replicationv1 "go.temporal.io/server/api/replication/v1"
 	"go.temporal.io/server/common/channel"
 	"google.golang.org/grpc/codes"
+	"google.golang.org/grpc/metadata"
 	"google.golang.org/grpc/status"
 
 	"github.com/temporalio/s2s-proxy/config"
@@ -168,8 +169,16 @@ func NewGossipWorld(s *simrt.Sim) *GossipWorld {
 			}
 			w.nextSt++
 			st := simio.NewStream(fmt.Sprintf("intra%d->%s", w.nextSt, peer.name), w.nextSt, ctx, 0)
+			omd, _ := metadata.FromOutgoingContext(ctx)
+			s.Log("intra stream %s opened: %s", st.Name, mdSummary(omd))
+			st.OnS2C = func(m *simio.Res) {
+				if msgs := m.GetMessages(); msgs != nil {
+					s.Log("intra stream %s: server side sends high=%d (dead=%v)", st.Name, msgs.ExclusiveHighWatermark, st.Dead())
+				}
+			}
 			s.Spawn("intra-handler:"+st.Name, func() {
 				err := peer.server.StreamWorkflowReplicationMessages(simio.ServerEnd{S: st})
+				s.Log("intra stream %s: handler returned %v", st.Name, err)
 				st.ServerFinish(err)
 			})
 			return simio.ClientEnd{S: st}, nil
